@@ -34,6 +34,8 @@ type treeVec struct {
 		Attrs []int `json:"attrs"`
 		Vals  []int `json:"vals"` // what each attribute evaluates to when the record is handled (0: not a live one)
 	} `json:"out"`
+	Tree []int   `json:"tree"` // the independent tree (constructor call) of handler i+1
+	Tw   []int   `json:"tw"`   // the writer of tree i+1
 	Live int     `json:"live"` // kind of the live values (0: none), see liveValuer
 	Recs [][]int `json:"recs"` // attribute ids of the records the path creates, in order
 	Rets []int   `json:"rets"` // how each Handle call of the path ends: 0 line, 1 the writer's error, 3 the writer's panic // predicted line of every log step of the path
@@ -100,9 +102,13 @@ func opsKey(ops [][]int) string {
 		case 5:
 			fmt.Fprintf(&b, "R%d<-rec%d", o[1], o[2])
 		case 6:
-			fmt.Fprintf(&b, "W!%s", [...]string{"ok", "err", "short", "panic"}[o[1]&3])
+			fmt.Fprintf(&b, "W%d!%s", o[len(o)-1], [...]string{"ok", "err", "short", "panic"}[o[1]&3])
 		case 7:
 			fmt.Fprintf(&b, "cell=%d", o[1])
+		case 8:
+			fmt.Fprintf(&b, "ctx=%s", ctxKindName(o[1]))
+		case 9:
+			fmt.Fprintf(&b, "NEW@w%d", o[1])
 		case 3:
 			fmt.Fprintf(&b, "G%d", o[1])
 		}
@@ -140,6 +146,33 @@ func replayOne(res *vh.Result, st *treeStats, no int, raw []byte, v *treeVec, sa
 		errAt[lv] = v.Err[i] == 1
 	}
 
+	// Independent trees (separate NewJSONHybridHandler calls), each with its
+	// own options variant, reference and writer (writers may be shared).
+	type treeEnv struct {
+		w       *seqWriter
+		ref     *reference
+		errSeen bool // the writer has returned an error to THIS tree
+	}
+	writers := map[int]*seqWriter{}
+	wid1 := 1
+	if len(v.Tw) > 0 {
+		wid1 = v.Tw[0]
+	}
+	writers[wid1] = w
+	tenv := []*treeEnv{nil, {w: w, ref: ref}}
+	treeOf := func(h int) int {
+		if h-1 < len(v.Tree) {
+			return v.Tree[h-1]
+		}
+		return 1
+	}
+	hasCtxOps := false
+	for _, op := range v.Ops {
+		if op[0] == 8 {
+			hasCtxOps = true
+		}
+	}
+	nextCtx := 0
 	var root slog.Handler
 	if pv, panicked := vh.Try(func() { root = slogutil.NewJSONHybridHandler(w, opts) }); panicked {
 		res.Mismatch(base+" NewJSONHybridHandler", fmt.Sprintf("panic: %v", pv), detail(nil))
@@ -189,7 +222,6 @@ func replayOne(res *vh.Result, st *treeStats, no int, raw []byte, v *treeVec, sa
 		}
 	}
 	stop := false
-	errSeen := false // the writer has returned an error to this handler tree
 	var wedged *errWedged
 	var handleR func(h int, lr liveRec, wantErr bool, what string, want int)
 	handle := func(h int, lr liveRec, wantErr bool, what string) { handleR(h, lr, wantErr, what, 0) }
@@ -203,12 +235,23 @@ func replayOne(res *vh.Result, st *treeStats, no int, raw []byte, v *treeVec, sa
 		if autoTick {
 			cell++
 		}
+		te := tenv[treeOf(h)]
+		w, ref := te.w, te.ref
+		// The context of the call is environment: the path's own <<8, k>>
+		// steps say which, otherwise the harness rotates through the kinds.
+		ckind := nextCtx
+		if !hasCtxOps {
+			ckind = (ctr + h) % 4
+		}
+		nextCtx = 0
+		cctx, cancel := makeCtx(ckind)
+		defer cancel()
 		w.reset()
 		armedBefore := w.next
 		var herr error
 		var pv any
 		var panicked bool
-		call := func() { pv, panicked = vh.Try(func() { herr = hs[h].Handle(ctx, lr.val) }) }
+		call := func() { pv, panicked = vh.Try(func() { herr = hs[h].Handle(cctx, lr.val) }) }
 		if hasFaults {
 			if ok, state := callWithDeadline(wedgeLimit, call); !ok {
 				wedged, stop = &errWedged{where: fmt.Sprintf("%s h=%d", what, h), state: state}, true
@@ -245,12 +288,12 @@ func replayOne(res *vh.Result, st *treeStats, no int, raw []byte, v *treeVec, sa
 			res.Mismatch(fmt.Sprintf("%s %s h=%d level=%d rec=%v", base, what, h, lv, recIDs), w2, det)
 		}
 		d := func(problem string) map[string]any {
-			return detail(map[string]any{"handler": h, "level": lv, "record_attr_ids": recIDs, "record_addattrs_calls": lr.rs.calls,
+			return detail(map[string]any{"handler": h, "context": ctxKindName(ckind), "tree": treeOf(h), "level": lv, "record_attr_ids": recIDs, "record_addattrs_calls": lr.rs.calls,
 				"handler_attr_ids": v.Attrs[h-1], "message_text": clipStr(lr.rs.msg), "got_output": clipStr(string(w.buf)),
 				"got_writes": w.writes, "want_severity": severityName(wantErr), "want_message": clipStr(wantMsg),
 				"problem": problem})
 		}
-		if errSeen {
+		if te.errSeen {
 			// After a Write error the obligation is the weaker one (a failing
 			// writer is outside the property): the call either behaves as its
 			// own Write demands, or - if the implementation gave up and does not
@@ -267,7 +310,7 @@ func replayOne(res *vh.Result, st *treeStats, no int, raw []byte, v *treeVec, sa
 		}
 		switch want {
 		case faultErr, faultShort:
-			errSeen = true
+			te.errSeen = true
 			if panicked || herr == nil || !errors.Is(herr, errInjected) || len(w.buf) > 0 {
 				mism(fmt.Sprintf("the writer returned an error: Handle must return it (got error %v, panic %v, %d bytes written)", herr, pv, len(w.buf)), d("writer error"))
 			}
@@ -349,6 +392,14 @@ func replayOne(res *vh.Result, st *treeStats, no int, raw []byte, v *treeVec, sa
 	}
 
 	nout, nret := 0, 0
+	unarmed := func() bool {
+		for _, x := range writers {
+			if x.next != faultNone {
+				return false
+			}
+		}
+		return true
+	}
 	for i, op := range v.Ops {
 		switch op[0] {
 		case 1:
@@ -408,6 +459,7 @@ func replayOne(res *vh.Result, st *treeStats, no int, raw []byte, v *treeVec, sa
 				lr = live[op[2]-1]
 			}
 			isErr := lr.rs.level >= slog.LevelError
+			errSeen := tenv[treeOf(h)].errSeen
 			if want == 2 && errSeen {
 				want = 0 // the model's sticky encoder; handleR applies the weaker obligation
 			} else if want == 2 {
@@ -442,10 +494,36 @@ func replayOne(res *vh.Result, st *treeStats, no int, raw []byte, v *treeVec, sa
 			}
 			handleR(h, lr, isErr, fmt.Sprintf("step %d", i+1), want)
 		case 6:
-			if len(op) != 2 || op[1] < 1 || op[1] > 3 {
+			if len(op) != 3 || op[1] < 1 || op[1] > 3 || op[2] < 1 {
 				return fmt.Errorf("vector %d: bad fault op %v", no, op)
 			}
-			w.next = op[1]
+			if writers[op[2]] == nil {
+				writers[op[2]] = &seqWriter{} // a writer no tree is on yet
+			}
+			writers[op[2]].next = op[1]
+		case 8:
+			if len(op) != 2 || op[1] < 1 || op[1] > 3 {
+				return fmt.Errorf("vector %d: bad context op %v", no, op)
+			}
+			nextCtx = op[1]
+		case 9:
+			// Another constructor call: an independent tree on writer op[1].
+			t := len(tenv)
+			if len(op) != 2 || len(hs) > len(v.Tree) || v.Tree[len(hs)-1] != t || t > len(v.Tw) || v.Tw[t-1] != op[1] {
+				return fmt.Errorf("vector %d: bad new-tree op %v", no, op)
+			}
+			if writers[op[1]] == nil {
+				writers[op[1]] = &seqWriter{}
+			}
+			topts := makeOpts((variant+t-1)%nVariants, v.Thr)
+			var r2 slog.Handler
+			if pv, panicked := vh.Try(func() { r2 = slogutil.NewJSONHybridHandler(writers[op[1]], topts) }); panicked {
+				res.Mismatch(base+" NewJSONHybridHandler (another tree)", fmt.Sprintf("panic: %v", pv), detail(nil))
+				return nil
+			}
+			tenv = append(tenv, &treeEnv{w: writers[op[1]], ref: newReference(topts)})
+			hs = append(hs, r2)
+			accC = append(accC, nil)
 		case 7:
 			if len(op) != 2 || v.Live == 0 {
 				return fmt.Errorf("vector %d: bad tick op %v", no, op)
@@ -469,7 +547,7 @@ func replayOne(res *vh.Result, st *treeStats, no int, raw []byte, v *treeVec, sa
 		if stop {
 			break
 		}
-		if w.next == faultNone {
+		if unarmed() {
 			observe(fmt.Sprintf("after step %d", i+1), op[1])
 		}
 	}
@@ -480,7 +558,9 @@ func replayOne(res *vh.Result, st *treeStats, no int, raw []byte, v *treeVec, sa
 		st.vectors.Add(1)
 		return nil // reported; the rest of the path depends on it
 	}
-	w.next = faultNone // an armed fault that no Write of the path met
+	for _, x := range writers {
+		x.next = faultNone // an armed fault that no Write of the path met
+	}
 	if len(hs)-1 != len(v.Attrs) {
 		return fmt.Errorf("vector %d: %d handlers, %d predicted", no, len(hs)-1, len(v.Attrs))
 	}
@@ -697,4 +777,24 @@ func clipStr(s string) string {
 		return s[:1500] + fmt.Sprintf(" ...(%d bytes)... ", len(s)) + s[len(s)-1000:]
 	}
 	return s
+}
+
+// makeCtx returns the context of the given kind for one Handle call and the
+// function to call afterwards.
+func makeCtx(kind int) (context.Context, func()) {
+	switch kind {
+	case 1:
+		return context.WithCancel(context.Background())
+	case 2:
+		c, cancel := context.WithCancel(context.Background())
+		cancel()
+		return c, func() {}
+	case 3:
+		return context.WithDeadline(context.Background(), time.Unix(1, 0))
+	}
+	return context.Background(), func() {}
+}
+
+func ctxKindName(k int) string {
+	return [...]string{"background", "live", "cancelled", "deadline-expired"}[k&3]
 }
